@@ -415,10 +415,10 @@ func genChain(t *rapid.T) chain {
 		}
 		ver := pickVer(i, fmt.Sprintf("ver%d", i))
 		m := genMeta(t, fmt.Sprintf("meta%d", i), ttl, ver)
+		if m == nil && layers > 1 {
+			m = &protosession.RequestMetaHeader{} // a nil meta header cannot be an origin of / carry an origin
+		}
 		if i > 0 {
-			if m == nil {
-				m = &protosession.RequestMetaHeader{}
-			}
 			m.Origin = meta
 		}
 		meta = m
@@ -522,8 +522,24 @@ func mutate(t *rapid.T, c chain) (request, mutation) {
 	depth := rapid.IntRange(0, c.layers-1).Draw(t, "mutDepth")
 	legacy := c.mode != "v2.25"
 
-	names := []string{"none", "none", "body-flip", "meta-flip", "meta-field", "sig-flip", "key-flip", "scheme", "drop-slot", "drop-layer",
-		"drop-both-layers", "swap-layers", "copy-sig", "foreign-key", "resign-slot", "strip-vh", "strip-vh", "empty-vh", "extra-origin", "body-sig-on-outer", "vh-flip"}
+	// only mutations applicable to this chain are offered (inapplicable draws would be wasted "none" cases)
+	names := []string{"none", "none", "sig-flip", "sig-flip", "key-flip", "scheme", "drop-slot", "copy-sig", "foreign-key", "resign-slot",
+		"strip-vh", "strip-vh", "strip-vh", "empty-vh", "extra-origin", "vh-flip", "vh-flip"}
+	if len(stable(k.body(orig))) > 0 {
+		names = append(names, "body-flip", "body-flip")
+	}
+	if meta != nil {
+		names = append(names, "meta-field", "meta-field")
+		if len(stable(meta)) > 0 {
+			names = append(names, "meta-flip")
+		}
+	}
+	if c.layers > 1 {
+		names = append(names, "drop-layer", "drop-layer", "drop-both-layers", "swap-layers", "swap-layers", "copy-sig")
+		if legacy {
+			names = append(names, "body-sig-on-outer")
+		}
+	}
 	name := rapid.SampledFrom(names).Draw(t, "mutation")
 	mu := mutation{name: name}
 	switch name {
@@ -889,7 +905,7 @@ func TestC33Exemption(t *testing.T) {
 		if rec.WantSample() {
 			rec.Sample(what)
 		}
-		if vhKind == "signed" && !refN3 {
+		if vhKind == "signed" && meta.GetOrigin() == nil && !refN3 {
 			t.Fatalf("reference rejects an SDK-signed request: %s", what)
 		}
 		check := func(name string, err error, want bool) {
